@@ -140,6 +140,8 @@ type Interp struct {
 	fs       *FS
 	clockN   int
 	lastNow  *T
+	lastSec  *T
+	lastNsec *T
 	harness  string
 	forks    func(prefix []int)
 	expectPanic bool
@@ -149,6 +151,8 @@ type Interp struct {
 	merges   int
 	pathViol []*Violation
 	fmtLazy  bool
+	divN     int
+	portfolio map[string]int
 	initStored map[*ssa.Global]bool
 
 	// per worker accumulators
@@ -346,6 +350,9 @@ func (in *Interp) mkReplay(m map[string]uint64) []ReplayRec {
 		switch r.Kind {
 		case "choice", "len":
 			rr.V = uint64(r.N)
+		case "time":
+			rr.V = Eval(r.Ts[0], m, memo, uf)
+			rr.B = []uint64{Eval(r.Ts[1], m, memo, uf) % 1000000000}
 		case "bytes":
 			rr.B = make([]uint64, len(r.Ts))
 			for i, t := range r.Ts {
@@ -384,16 +391,37 @@ func (in *Interp) vc(cond *T, tag, msg string) {
 			return
 		}
 		m, r := in.modelWith(nil)
+		if r == "unknown" {
+			if pr, who := Portfolio(in.pc, in.cfg.TimeoutMs); pr == "unsat" {
+				in.portfolio[who]++
+				r = "unsat"
+			}
+		}
 		if r == "unsat" {
 			panic(pathStop{"assume", "infeasible"})
 		}
 		if r != "sat" {
+			if os.Getenv("GSE_DUMPVC") != "" {
+				fmt.Fprintf(os.Stderr, "UNKNOWN VC %s: constant false, path feasibility unknown\n", tag)
+				for _, p := range in.pc {
+					n := 400
+					fmt.Fprintf(os.Stderr, "   pc: %s\n", Pretty(p, &n))
+				}
+			}
 			panic(pathStop{"inconclusive", "solver " + r + " on VC " + tag})
 		}
 		in.violation(tag, msg, m)
 		panic(pathStop{"assume", "known-finding site always fails here"})
 	}
 	m, r := in.modelWith(in.tb.Not(cond))
+	if r == "unknown" && !in.sol.dead || r == "unknown" {
+		// second opinion from other solvers on the same query (only "unsat" is used: no model parsing)
+		q := append(append([]*T(nil), in.pc...), in.tb.Not(cond))
+		if pr, who := Portfolio(q, in.cfg.TimeoutMs); pr == "unsat" {
+			in.portfolio[who]++
+			r = "unsat"
+		}
+	}
 	switch r {
 	case "unsat":
 		in.vcsUnsat++
@@ -409,6 +437,14 @@ func (in *Interp) vc(cond *T, tag, msg string) {
 			panic(pathStop{"assume", "after known finding"})
 		}
 	default:
+		if os.Getenv("GSE_DUMPVC") != "" {
+			n := 600
+			fmt.Fprintf(os.Stderr, "UNKNOWN VC %s: %s\n", tag, Pretty(cond, &n))
+			for _, p := range in.pc {
+				n := 300
+				fmt.Fprintf(os.Stderr, "   pc: %s\n", Pretty(p, &n))
+			}
+		}
 		panic(pathStop{"inconclusive", "solver " + r + " on VC " + tag + ": " + strings.Join(in.sol.Errors, ";")})
 	}
 }
